@@ -108,6 +108,11 @@ func newEnvDSN(t testing.TB, dsn *dbx.DsnT, opts ...driver.TestRegistryOption) *
 
 // rest performs one request against a router; returns status (0 if the handler panicked) and body
 func rest(h http.Handler, method, target string, body []byte) (code int, out []byte) {
+	return restCtx(context.Background(), h, method, target, body)
+}
+
+// restCtx: the same with a request context (deadline of the caller)
+func restCtx(ctx context.Context, h http.Handler, method, target string, body []byte) (code int, out []byte) {
 	defer func() {
 		if r := recover(); r != nil {
 			code, out = 0, []byte(fmt.Sprint(r))
@@ -117,7 +122,7 @@ func rest(h http.Handler, method, target string, body []byte) (code int, out []b
 	if body != nil {
 		rd = bytes.NewReader(body)
 	}
-	req := httptest.NewRequest(method, target, rd)
+	req := httptest.NewRequest(method, target, rd).WithContext(ctx)
 	if body != nil {
 		req.Header.Set("Content-Type", "application/json")
 	}
